@@ -1,5 +1,7 @@
 import SlotVerif.Proofs.Rules
 import SlotVerif.Proofs.Eval
+import SlotVerif.Proofs.Inst
+import SlotVerif.Proofs.Coding
 /-!
 # C03 — Rewriting with valid rules preserves meaning, including under binders
 
@@ -15,9 +17,16 @@ congruence under the `sum`/`let` binders included; `Proofs/Eval.lean`).  Hence a
 e-graph in which two members evaluate differently is a *certified* unsoundness
 (`not_cong_of_eval_ne`), and a slot the specification calls redundant cannot influence the value
 (`redundant_eval`).  That the *e-graph* keeps every class single-valued is validated per run by
-evaluating every e-node of every class in Lean.  Not a theorem: that an instance of a valid rule
-(`evalP` semantics of patterns) holds as an equation between terms (`eval`) — the instantiation
-lemma linking `Rules.evalP` to `Eval.eval` is pending.
+evaluating every e-node of every class in Lean.  The link between the two semantics is the
+**instantiation lemma** (`Proofs/Inst.lean`): the instance of a pattern under any assignment of
+named terms to its variables evaluates to the pattern's `evalP` value — the substitution form
+`b[(var $x) := e]` included, as the replacement of the `(var $x)` subterms whenever that is hygienic
+(`Eval.substOK`: `x` is read only through `var`, no binder of `b` rebinds `x` or captures a slot of
+`e`; `evalN_subst`) — so every instance of a valid rule *holds* as an equation between terms
+(`rule_instance_holds`, all 30 pool rules), and
+`saturation_sound` chains it with `cong_eval`: whatever is derivable from instances of pool rules
+and from user equations that hold evaluates equal.  The locally nameless conversion `Term.close`
+used by the driver is proved meaning-preserving (`close_preserves_meaning`), so it is not trusted.
 -/
 namespace SV.C03
 open SV SV.Rules
@@ -102,5 +111,55 @@ theorem redundant_eval {E : List (Term × Term)} (hE : Eval.Holds E) {t : Term} 
     have hx' : x ≠ s' := fun he => hfresh (he ▸ hx)
     simp [Eval.upd, hx']
   rw [← hl, e1, hsame, ← e2, hr2]
+
+/-- the driver's conversion of named terms to locally nameless form preserves meaning -/
+theorem close_preserves_meaning (t : Term) (hok : ∀ x ∈ Eval.occN t, Term.isBvar x = false) (benv : List Eval.F)
+    (env : Nat → Eval.F) : Eval.eval benv env (Term.close t) = Eval.evalN t env :=
+  Eval.eval_close t hok benv env
+
+/-- **every instance of a valid rule holds in the model**, under every binder stack and environment -/
+theorem rule_instance_holds {code : String → Nat} {dec : Nat → Option String} (hc : Coding code dec) (r : Rule)
+    (hv : r.Valid) (σ : String → Term) (hσ : ∀ a, ∀ x ∈ Eval.occN (σ a), Term.isBvar x = false)
+    (hcond : ∀ c ∈ r.conds ++ r.implicit, code c.1 ∉ Eval.occN (σ c.2))
+    {l rt : Term} (hl : instN code σ r.lhs = some l) (hr : instN code σ r.rhs = some rt) :
+    Eval.Holds [(Term.close l, Term.close rt)] :=
+  instance_holds hc r hv σ hσ hcond hl hr
+
+/-- an equation that is the closed form of an instance of a pool rule whose side conditions are met -/
+def IsPoolInstance (e : Term × Term) : Prop :=
+  ∃ (code : String → Nat) (dec : Nat → Option String) (r : Rule) (σ : String → Term) (l rt : Term),
+    Coding code dec ∧ r ∈ pool ∧ (∀ a, ∀ x ∈ Eval.occN (σ a), Term.isBvar x = false) ∧
+    (∀ c ∈ r.conds ++ r.implicit, code c.1 ∉ Eval.occN (σ c.2)) ∧
+    instN code σ r.lhs = some l ∧ instN code σ r.rhs = some rt ∧ e = (Term.close l, Term.close rt)
+
+/-- **equality saturation with the pool is sound in the model**: from user equations that hold and any instances
+of pool rules, only equations that hold are derivable — through renaming and congruence under binders -/
+theorem saturation_sound {E : List (Term × Term)}
+    (hE : ∀ e ∈ E, IsPoolInstance e ∨ (∀ benv env, Eval.evalT e.1 benv env = Eval.evalT e.2 benv env))
+    {t u : Term} (h : Cong E t u) (benv : List Eval.F) (env : Nat → Eval.F) :
+    Eval.eval benv env t = Eval.eval benv env u := by
+  apply cong_eval _ h
+  intro e he
+  rcases hE e he with ⟨code, dec, r, σ, l, rt, hc, hr, hσ, hcond, hl, hrt, rfl⟩ | hh
+  · exact rule_instance_holds hc r (pool_valid r hr) σ hσ hcond hl hrt _ (List.mem_singleton.mpr rfl)
+  · exact hh
+
+/-- the `Coding` hypothesis is satisfiable (all slot names at once) -/
+theorem coding_exists : ∃ code dec, Coding code dec := ⟨stdCode, stdDec, stdCoding⟩
+
+/-- non-vacuity: `sum-factor` instantiated with `?c := (var $y)`, `?a := (var $x)` is a pool instance
+(coding: `$x ↦ 4`, `$y ↦ 8`, every other name ↦ 0) -/
+def exCode : String → Nat := fun s => if s = "x" then 4 else if s = "y" then 8 else 0
+def exDec : Nat → Option String := fun c => if c = 4 then some "x" else if c = 8 then some "y" else none
+def exσ : String → Term := fun a =>
+  if a = "c" then .mk { v := 2, fields := [.slot 8] } [] else .mk { v := 2, fields := [.slot 4] } []
+/-- … and `let-subst` (right side `?b[(var $x) := ?e]`) with `?b := (add (var $x) (var $x))`, `?e := (var $y)` -/
+def exσ2 : String → Term := fun a =>
+  if a = "b" then .mk { v := 4, fields := [.app ph, .app ph] } [.mk { v := 2, fields := [.slot 4] } [], .mk { v := 2, fields := [.slot 4] } []]
+  else .mk { v := 2, fields := [.slot 8] } []
+example : (instN exCode exσ2 (pool[15]'(by decide)).rhs).map Eval.occN = some [8, 8] ∧
+    (instN exCode exσ2 (pool[15]'(by decide)).lhs).isSome := by decide
+example : (instN exCode exσ (pool[11]'(by decide)).lhs).isSome ∧ (instN exCode exσ (pool[11]'(by decide)).rhs).isSome ∧
+    exCode "x" ∉ Eval.occN (exσ "c") := by decide
 
 end SV.C03
